@@ -9,6 +9,7 @@
 #include <map>
 #include <string>
 #include <tuple>
+#include <sys/mman.h>
 #include <unistd.h>
 #include <vector>
 
@@ -49,6 +50,19 @@ inline Outcome readBytes(const std::string &bytes, XMLDoc &doc)
   if (!bytes.empty())
     fwrite(bytes.data(), 1, bytes.size(), f);
   fclose(f);
+  // An inaccessible page mapped immediately before the call: the kernel places the next mapping directly below it,
+  // so a reader that maps the file and then runs past its last byte faults instead of silently reading whatever
+  // happens to follow (what ASan's redzones do for heap buffers, done here for file mappings).
+  void *guard = mmap(nullptr, 4096, PROT_NONE, MAP_PRIVATE | MAP_ANONYMOUS, -1, 0);
+  struct Unmap
+  {
+    void *p;
+    ~Unmap()
+    {
+      if (p != MAP_FAILED)
+        munmap(p, 4096);
+    }
+  } unmap{guard};
   try {
     doc = rkcommon::xml::readXML(scratchFile());
   } catch (const std::runtime_error &) {
@@ -101,12 +115,27 @@ inline std::string fixContent(const std::string &t)
     ++i;
   return r.substr(i);
 }
+// A property value as it stands in the file, which is also what the reader returns (escapes are kept raw): no NUL,
+// no unescaped occurrence of its own quote character; a backslash always forms a pair with the following character
+// (which may be the quote character or another backslash), so a value never ends in a lone backslash.
 inline std::string fixValue(const std::string &v, char quote)
 {
   std::string r;
-  for (char c : v)
-    if (c != quote && c != '\\' && c != 0)
+  for (size_t i = 0; i < v.size(); ++i) {
+    char c = v[i];
+    if (c == 0)
+      continue;
+    if (c == '\\') {
+      char x = 'n';
+      if (i + 1 < v.size() && v[i + 1] != 0)
+        x = v[++i];
+      r.push_back('\\');
+      r.push_back(x);
+      continue;
+    }
+    if (c != quote)
       r.push_back(c);
+  }
   return r;
 }
 static const char *WS[] = {"", " ", "\n", "\t ", "\r\n  "};
@@ -198,6 +227,11 @@ struct Printer
       node(r, model.back());
     }
     filler(d.style | 2);
+    // some documents are padded with trailing white space to an exact multiple of the page size: a reader that
+    // relies on a terminator behind the file contents has nothing to rely on there
+    if (d.style % 5 == 2)
+      while (out.size() % 4096 != 0)
+        out.push_back(out.size() % 64 == 63 ? '\n' : ' ');
   }
 };
 
